@@ -44,7 +44,15 @@ Definition list_Z_eqb (a b : list Z) : bool :=
 Definition str_Infinity : list Z := [73; 110; 102; 105; 110; 105; 116; 121].
 
 (* value of N * 10^p, correctly rounded, for the cases where a single rounding suffices *)
-Definition dec_value (neg : bool) (N p : Z) : option f64 :=
+(* N * 10^p with the trailing decimal zeros of N moved into the exponent *)
+Fixpoint strip10 (fuel : nat) (N p : Z) : Z * Z :=
+  match fuel with
+  | O => (N, p)
+  | S k => if (N mod 10 =? 0) && negb (N =? 0) then strip10 k (N / 10) (p + 1) else (N, p)
+  end.
+
+Definition dec_value (neg : bool) (N0 p0 : Z) : option f64 :=
+  let '(N, p) := strip10 400 N0 p0 in
   if N =? 0 then Some (S754_zero neg)
   else
     let sN := if neg then - N else N in
@@ -89,6 +97,93 @@ Definition StringToNumber (s : list Z) : f64 :=
   | _ => match parse_decimal t with Some f => f | None => fnan end
   end.
 
+(* ---- parseFloat: the longest prefix that is a StrDecimalLiteral (ECMA-262 19.2.4) ---- *)
+Definition starts_with (p s : list Z) : bool := list_Z_eqb p (firstn (length p) s).
+
+Definition parse_decimal_prefix (s : list Z) : option f64 :=   (* None: no such prefix (NaN) / not modelled *)
+  let '(neg, s1) := match s with 43 :: r => (false, r) | 45 :: r => (true, r) | _ => (false, s) end in
+  if starts_with str_Infinity s1 then Some (finf neg)
+  else
+    let '(ip, ni, s2) := take_digits 0 0 s1 in
+    let '(fp, nf, s3) := match s2 with 46 :: r => take_digits ip 0 r | _ => (ip, 0, s2) end in
+    if (ni + nf =? 0) then None
+    else
+      let expo :=
+        match s3 with
+        | c :: r =>
+            if (c =? 101) || (c =? 69) then
+              let '(eneg, r1) := match r with 43 :: t => (false, t) | 45 :: t => (true, t) | _ => (false, r) end in
+              let '(ev, ne, _) := take_digits 0 0 r1 in
+              if ne =? 0 then 0 else if eneg then - ev else ev
+            else 0
+        | [] => 0
+        end in
+      dec_value neg fp (expo - nf).
+
+Definition S_parseFloat (s : list Z) : f64 :=
+  match parse_decimal_prefix (drop_ws s) with Some f => f | None => fnan end.
+
+(* ---- parseInt (ECMA-262 19.2.5) ---- *)
+Definition digit36 (c : Z) : Z :=
+  if (48 <=? c) && (c <=? 57) then c - 48
+  else if (97 <=? c) && (c <=? 122) then c - 87
+  else if (65 <=? c) && (c <=? 90) then c - 55 else 99.
+
+Fixpoint take_radix (base acc n : Z) (s : list Z) : Z * Z :=
+  match s with
+  | c :: r => let v := digit36 c in if v <? base then take_radix base (acc * base + v) (n + 1) r else (acc, n)
+  | [] => (acc, n)
+  end.
+
+(* returns the mathematical integer (None = NaN) and the sign *)
+Definition parseInt_math (s : list Z) (radix : Z) : option (bool * Z) :=
+  let t := drop_ws s in
+  let '(neg, t1) := match t with 43 :: r => (false, r) | 45 :: r => (true, r) | _ => (false, t) end in
+  let R0 := ToInt32_spec (of_Z radix) in
+  if negb (R0 =? 0) && ((R0 <? 2) || (36 <? R0)) then None
+  else
+    let strip := (R0 =? 0) || (R0 =? 16) in
+    let R1 := if R0 =? 0 then 10 else R0 in
+    let '(R, t2) :=
+      if strip then
+        match t1 with
+        | 48 :: x :: r => if (x =? 120) || (x =? 88) then (16, r) else (R1, t1)
+        | _ => (R1, t1)
+        end
+      else (R1, t1) in
+    let '(v, n) := take_radix R 0 0 t2 in
+    if n =? 0 then None else Some (neg, v).
+
+Definition S_parseInt (s : list Z) (radix : Z) : f64 :=
+  match parseInt_math s radix with
+  | None => fnan
+  | Some (neg, v) => if v =? 0 then S754_zero neg else of_Z (if neg then - v else v)
+  end.
+
+(* comparison up to a few units in the last place, for results the specification leaves
+   implementation-approximated; the representation must still be canonical *)
+Definition approx_eqb (tol : Z) (r : jsnum) (f : f64) : bool :=
+  canon r &&
+  match r with
+  | NFlt g => negb (is_nan g) && negb (is_nan f) && (Z.abs (to_bits g - to_bits f) <=? tol)
+  | NInt _ => jsnum_eqb r (canon_of f)
+  end.
+
+Definition of_Z_is_exact (z : Z) : bool :=
+  match trunc_Z (of_Z z) with Some k => k =? z | None => false end.
+
+(* x ** y on integers, y >= 0: exact when the power is representable, else within 16 ulps of the rounded power *)
+Definition check_pow (x y : Z) (r : jsnum) : bool :=
+  let P := x ^ y in
+  if of_Z_is_exact P then jsnum_eqb r (S_pow x y) else approx_eqb 16 r (of_Z P).
+
+Definition check_parseInt (s : list Z) (radix : Z) (r : jsnum) : bool :=
+  match parseInt_math s radix with
+  | Some (_, v) => if v <? two63 then jsnum_eqb r (canon_of (S_parseInt s radix))
+                   else approx_eqb 64 r (S_parseInt s radix)
+  | None => jsnum_eqb r (NFlt fnan)
+  end.
+
 (* ---- cases ---- *)
 
 Inductive tcase :=
@@ -97,6 +192,9 @@ Inductive tcase :=
 | CVal (bits : Z) (r : jsnum)            (* some producer yielded the double [bits]; r = its representation *)
 | CEq (a b : jsnum) (obs : list bool)    (* representations of two produced values + what scripts observe *)
 | CStr (us : list Z) (r : jsnum)         (* Number(s) / +s / s*1 on a string of UTF-16 units *)
+| CPow (x y : Z) (r : jsnum)             (* x ** y / Math.pow(x, y) on integer operands, y >= 0 *)
+| CPInt (us : list Z) (radix : Z) (r : jsnum)   (* parseInt(s, radix) *)
+| CPFloat (us : list Z) (r : jsnum)      (* parseFloat(s) *)
 | CFail.
 Arguments CStr us%Z_scope r.
 
@@ -123,6 +221,9 @@ Definition expected_S (c : tcase) : list jsnum * list bool :=
   | CVal bits _ => ([canon_of (of_bits bits)], [])
   | CEq a b _ => ([], eq_spec a b)
   | CStr us _ => ([canon_of (StringToNumber us)], [])
+  | CPow x y _ => ([S_pow x y], [])
+  | CPInt us radix _ => ([canon_of (S_parseInt us radix)], [])
+  | CPFloat us _ => ([canon_of (S_parseFloat us)], [])
   | CFail => ([], [])
   end.
 Definition expected_I (c : tcase) : list jsnum * list bool :=
@@ -131,6 +232,7 @@ Definition expected_I (c : tcase) : list jsnum * list bool :=
   | CBin o a b _ => ([I_bin o a b], [])
   | CVal bits _ => ([floatToValue (of_bits bits)], [])
   | CEq a b _ => ([], eq_impl a b)
+  | CPow x y _ => (match op_pow (NInt x) (NInt y) with Some v => [v] | None => [] end, [])
   | _ => ([], [])
   end.
 
@@ -141,6 +243,9 @@ Definition check_case (c : tcase) : bool :=
   | CVal bits r => jsnum_eqb r (canon_of (of_bits bits))
   | CEq a b obs => bools_eqb obs (eq_spec a b)
   | CStr us r => jsnum_eqb r (canon_of (StringToNumber us))
+  | CPow x y r => check_pow x y r
+  | CPInt us radix r => check_parseInt us radix r
+  | CPFloat us r => jsnum_eqb r (canon_of (S_parseFloat us))
   | CFail => false
   end.
 
